@@ -238,7 +238,7 @@ pub fn write_evidence(stats: &Stats, m: EvidenceMeta) {
         "output_digest": format!("{:016x}", stats.digest),
         "known_findings_hit": stats.known_findings.len(),
         "components": {
-            "real": ["all 22 ta indicators, DataItem and builder, their Clone/Reset/Display/Debug and serde derives (path dependency on /repo, rebuilt from the working tree)", "bincode 1.3.3", "serde 1.0"],
+            "real": ["all 22 ta indicators, DataItem and builder, their Clone/Reset/Display/Debug and serde derives (path dependency on /repo, rebuilt from the working tree)", "bincode 1.3.3", "serde 1.0", "serde_json 1.0 (float_roundtrip) for the JSON round-trips of C06/C12"],
             "stub": ["market/world model and feed", "fault injector", "simulated disk", "op scheduler", "memory cap / allocator accounting"]
         }
     });
